@@ -33,7 +33,7 @@ ASSUMPTIONS = [
 ]
 MANIFEST = {
     'level': 'exploration',
-    'technique': 'runtime monitoring with sys.monitoring sensors (exception class, step counter, stack depth) over generated, mutated and adversarially repeated message bodies through the real decoders',
+    'technique': 'runtime monitoring with sys.monitoring sensors (exception class, step counter, stack depth) over generated, mutated and adversarially repeated message bodies through the real decoders; hostile messages sent over TCP to the real daemon process: liveness, log and NOTIFICATION monitors',
     'text': 'Seeded structure-aware fuzzing of the real decoders with an outcome oracle (decoded or RFC-coded Notify), a must-decode '
     'oracle for RFC-valid unusual inputs and deterministic cost sensors (function-entry count, stack depth). Held means no '
     'other exception, no refusal of a valid message, no super-linear cost on what was generated.',
